@@ -103,54 +103,65 @@ def r13a(ck, prog):
 def r13f(ck, prog):
     """what kalign_run does with the detected kind: the tests that choose the alphabet (the stores to msa->L / the calls of
     convert_msa_to_internal) and the biotype argument of aln_param_init depend on msa->biotype only - no local or parameter
-    that the requested type flows into (data or control dependence) takes its place"""
+    that the requested type flows into (data or control dependence) takes its place.  Private helpers of kalign_run are
+    followed, a helper parameter that receives a type-dependent argument counts as type-dependent"""
     K = prog.fn("kalign_run")
-    tpar = {p_["did"] for p_ in K.params if p_["name"] == "type"}
-    if not tpar:
+    t0 = {p_["did"] for p_ in K.params if p_["name"] == "type"}
+    if not t0:
         raise AnalysisBroken("R13f slot: kalign_run has no parameter named type")
 
-    def influenced(expr, seen=None, depth=0):
-        """does the requested type flow into expr?  follows locals through their definitions and the tests those sit under"""
-        seen = seen if seen is not None else set()
-        for r in expr.find("DeclRefExpr"):
-            if r.d.get("did") in tpar:
-                return True
-            if r.d.get("dk") == "Var" and not r.d.get("g") and r.d["did"] not in seen and depth < 4:
-                seen.add(r.d["did"])
-                for d_, nd in local_defs(K, r.d["did"]):
-                    if d_ is not None and influenced(d_, seen, depth + 1):
-                        return True
-                    for anc in nd.ancestors():
-                        c_ = anc.child("cond") if anc.k in ("IfStmt", "SwitchStmt") else None
-                        if c_ is not None and not nd.within(c_) and influenced(c_, seen, depth + 1):
+    def make_influenced(G, tainted):
+        def influenced(expr, seen=None, depth=0):
+            seen = seen if seen is not None else set()
+            for r in expr.find("DeclRefExpr"):
+                if r.d.get("did") in tainted:
+                    return True
+                if r.d.get("dk") == "Var" and not r.d.get("g") and r.d["did"] not in seen and depth < 4:
+                    seen.add(r.d["did"])
+                    for d_, nd in local_defs(G, r.d["did"]):
+                        if d_ is not None and influenced(d_, seen, depth + 1):
                             return True
-        return False
+                        for anc in nd.ancestors():
+                            c_ = anc.child("cond") if anc.k in ("IfStmt", "SwitchStmt") else None
+                            if c_ is not None and not nd.within(c_) and influenced(c_, seen, depth + 1):
+                                return True
+            return False
+        return influenced
+    work = [(K, t0)]
+    infK = make_influenced(K, t0)
+    for c in K.body.calls():
+        H = prog.functions.get(c.callee) if c.callee else None
+        if H is not None and H.body is not None and H.static and H.file == K.file and H is not K:
+            th = {H.params[i]["did"] for i, a in enumerate(c.args) if i < len(H.params) and infK(a)}
+            work.append((H, th))
     n = 0
-    sites = [a for a, l, r in stores_to_field(K.body, "msa", "L")] + list(K.body.calls("convert_msa_to_internal"))
-    for st in sites:
-        for cond, pol in guards(st):
-            if cond.parent is None or cond.parent.k != "IfStmt" or any(m_ in ("RUN", "RUNP") for m_ in cond.mac):
-                continue
-            n += 1
-            bad = influenced(cond)
-            ck.inst("R13f", site(prog, st, "alphabet choice"), "chosen under `%s`: %s" % (cond.text()[:40], "depends on the requested type" if bad else "detected kind only"), prog.config)
-            if bad:
-                ck.violation("R13f", "R13f/kalign_run/alphabet", site(prog, st, "alphabet choice"),
-                             "kalign_run chooses the alphabet under `%s`, into which the requested alignment type flows: an explicit "
-                             "--type can override the kind recognised from the residue letters instead of being checked against it" % cond.text()[:50], prog.config)
-    for c in K.body.calls("aln_param_init"):
-        P = prog.fn("aln_param_init")
-        bi = P.param_index("biotype")
-        if bi is not None and bi < len(c.args):
-            n += 1
-            a0 = c.args[bi].strip(casts=True)
-            okarg = a0.k == "MemberExpr" and a0.d.get("field") == "biotype" and a0.d.get("rec") == "msa"
-            ck.inst("R13f", site(prog, c, "biotype argument"), "aln_param_init(biotype = %s)" % a0.text(), prog.config)
-            if not okarg and influenced(c.args[bi]):
-                ck.violation("R13f", "R13f/kalign_run/param-biotype", site(prog, c, "biotype argument"),
-                             "aln_param_init is told the kind `%s`, which depends on the requested type, not the detected msa->biotype: the "
-                             "'detected X but --type Y' checks can no longer fire" % a0.text(), prog.config)
-    ck.floor("R13f", n, 3, "uses of the detected kind in kalign_run")
+    for G, tainted in work:
+        influenced = make_influenced(G, tainted)
+        sites = [a for a, l, r in stores_to_field(G.body, "msa", "L")] + list(G.body.calls("convert_msa_to_internal"))
+        for st in sites:
+            for cond, pol in guards(st):
+                if cond.parent is None or cond.parent.k != "IfStmt" or any(m_ in ("RUN", "RUNP") for m_ in cond.mac):
+                    continue
+                n += 1
+                bad = influenced(cond)
+                ck.inst("R13f", site(prog, st, "alphabet choice"), "%s: chosen under `%s`: %s" % (G.name, cond.text()[:40], "depends on the requested type" if bad else "detected kind only"), prog.config)
+                if bad:
+                    ck.violation("R13f", "R13f/%s/alphabet" % G.name, site(prog, st, "alphabet choice"),
+                                 "%s chooses the alphabet under `%s`, into which the requested alignment type flows: an explicit "
+                                 "--type can override the kind recognised from the residue letters instead of being checked against it" % (G.name, cond.text()[:50]), prog.config)
+        for c in G.body.calls("aln_param_init"):
+            P = prog.fn("aln_param_init")
+            bi = P.param_index("biotype")
+            if bi is not None and bi < len(c.args):
+                n += 1
+                a0 = c.args[bi].strip(casts=True)
+                okarg = a0.k == "MemberExpr" and a0.d.get("field") == "biotype" and a0.d.get("rec") == "msa"
+                ck.inst("R13f", site(prog, c, "biotype argument"), "%s: aln_param_init(biotype = %s)" % (G.name, a0.text()), prog.config)
+                if not okarg and influenced(c.args[bi]):
+                    ck.violation("R13f", "R13f/%s/param-biotype" % G.name, site(prog, c, "biotype argument"),
+                                 "aln_param_init is told the kind `%s`, which depends on the requested type, not the detected msa->biotype: the "
+                                 "'detected X but --type Y' checks can no longer fire" % a0.text(), prog.config)
+    ck.floor("R13f", n, 1, "uses of the detected kind in kalign_run")
 
 
 def r13e(ck, prog):
